@@ -40,6 +40,7 @@ import (
 // ASSUME: the API server is modelled by in-harness fakes: Get/Bind of a missing pod is NotFound; Bind with a UID precondition that does not match, or of an already bound pod, is Conflict; any single call may fail cleanly (no effect)
 // ASSUME: informer caches (listers) hold, per object, either the current API object or an earlier version of it; the harness decides when they catch up
 // ASSUME: pod events carry the last pod object the informer saw for that incarnation; an event exists only for an incarnation that is deleted or finished in the API truth
+// ASSUME: the cloud provider detaches an address only from the node named in the request; for a node that does not hold the address the call succeeds without effect
 // ASSUME: keymutex locks are modelled per key (the real hashed key mutex may additionally collide keys)
 
 const vpNS = "ns"
@@ -470,6 +471,12 @@ func (p *vpProvider) UnAssignIP(in *rpc.UnAssignIPRequest) (*rpc.UnAssignIPReply
 	if owner := p.w.liveOwnerOf(in.IPAddress); owner != "" {
 		verifKnown("kf-late-event-other-uid", p.w.lateEventActive)
 		verifAssert("C04/unassign-live?", false, "the cloud provider was asked to unassign the IP of a live bound pod")
+	}
+	if cur, has := p.assigned[in.IPAddress]; has && cur != in.NodeName {
+		// the provider detaches the address from the node it is asked about; an address attached to another node stays
+		// where it is (idempotent answer for a node that does not hold it)
+		p.log = append(p.log, "unassign "+in.IPAddress+" "+in.NodeName+" (held by "+cur+": no effect)")
+		return &rpc.UnAssignIPReply{Success: true}, nil
 	}
 	delete(p.assigned, in.IPAddress)
 	p.log = append(p.log, "unassign "+in.IPAddress+" "+in.NodeName)
